@@ -40,13 +40,25 @@ func vfGoroutineIDs(stacks []string) map[string]string {
 	return out
 }
 
-// vfIsF9 recognises the two stacks of the recorded finding F9: the encoder blocked in the buffer-probing WaitGroup and
-// the sender stage waiting for the encoder's channel.
-func vfIsF9(stack string) bool {
-	if strings.Contains(stack, "(*sendDataWriter).Write") && strings.Contains(stack, "sync.(*WaitGroup).Wait") {
+// vfIsF9 recognises the stacks of the recorded finding F9. Root: the encoder blocked in the buffer-probing WaitGroup
+// ((*sendDataWriter).Write -> bufInitWG.Wait; with compression on that frame sits in a block goroutine of the zstd encoder).
+// Dependents, which wait for the root and only count together with it: the sender stage waiting for the encoder's channel, and
+// - with compression on - the encode stage waiting in zstdWriter.Close / Write for the stuck block goroutine.
+func vfIsF9(stack string) bool { return vfIsF9Root(stack) || vfIsF9Dependent(stack) }
+
+func vfIsF9Root(stack string) bool {
+	return strings.Contains(stack, "(*sendDataWriter).Write") && strings.Contains(stack, "sync.(*WaitGroup).Wait")
+}
+
+func vfIsF9Dependent(stack string) bool {
+	if strings.Contains(stack, "pipelineSendData.func") && strings.Contains(stack, "chan receive") {
 		return true
 	}
-	if strings.Contains(stack, "pipelineSendData.func") && strings.Contains(stack, "chan receive") {
+	if strings.Contains(stack, "klauspost/compress/zstd.(*Encoder).") && !strings.Contains(stack, "trzsz-go/trzsz.") {
+		return true // the encoder's own block goroutine, waiting for the write goroutine that sits in the root stack
+	}
+	if strings.Contains(stack, "pipelineEncodeData.func") && strings.Contains(stack, "zstd.(*Encoder).") &&
+		(strings.Contains(stack, "sync.(*WaitGroup).Wait") || strings.Contains(stack, "chan ")) {
 		return true
 	}
 	return false
@@ -255,12 +267,16 @@ func vfLeakSweep(c *vfCollector, final bool) string {
 		if len(leaked) == 0 {
 			continue
 		}
-		allKnown := true
+		allKnown, root := true, false
 		for _, st := range leaked {
 			if !vfIsF9(st) {
 				allKnown = false
 			}
+			if vfIsF9Root(st) {
+				root = true
+			}
 		}
+		allKnown = allKnown && root
 		if allKnown && vfKnown("F9") {
 			c.known("F9", e.cs, fmt.Sprintf("%d leaked goroutines match the F9 stacks (encoder blocked in bufInitWG.Wait, pipelineSendData waiting for it)", len(leaked)))
 			continue
@@ -360,6 +376,18 @@ func TestVF_C11(t *testing.T) {
 				}
 			}
 		}
+		// a long compressed stream whose receiver fails at once: the decoder has run far ahead of the stage that failed
+		if sc.Cfg.Overwrite && !sc.Cfg.Upload {
+			big := sc
+			big.Name += "+big-compressible"
+			big.Files, big.Size, big.Kind = 2, 8<<20, vfKindText
+			h := vfPointHash(big.Name, "dest_full")
+			if int(h%uint64(shards)) == shard {
+				if !vfC11One(t, c, vfC11Case{Scen: big, Ev: vfEvent{Dir: "c2s", K: -1}, Fault: "dest_full"}) {
+					return
+				}
+			}
+		}
 		// destination write errors need -y (the symlink is followed); one case per scenario
 		if sc.Cfg.Overwrite {
 			h := vfPointHash(sc.Name, "dest_full")
@@ -434,7 +462,23 @@ func vfPipelineSites() []string {
 func TestVF_C11Perturbed(t *testing.T) {
 	c := vfNewCollector("C11", "TestVF_C11Perturbed")
 	defer vfFlushAll()
-	if vfReplayOnly() {
+	for _, f := range vfCaseFilesFor(c.Test) {
+		var cs vfC11Case
+		if err := jsonUnmarshal(f.Case, &cs); err != nil {
+			t.Errorf("bad case file %s: %v", f.Path, err)
+			continue
+		}
+		var res vfC11Res
+		msg := vfGuard(func() string { return vfC11Run(cs, &res) })
+		vfC11Eval(c, cs, &res, msg)
+		if msg != "" {
+			c.violation("regress:"+filepath.Base(f.Path), cs, msg)
+			t.Errorf("case file %s fails: %s", f.Path, msg)
+		} else if lm := vfLeakSweep(c, true); lm != "" { // the sweep records the stacks itself
+			t.Errorf("case file %s fails: %s", f.Path, lm)
+		}
+	}
+	if vfReplayOnly() || t.Failed() {
 		return
 	}
 	sites := vfPipelineSites()
@@ -461,6 +505,28 @@ func TestVF_C11Perturbed(t *testing.T) {
 		if msg != "" {
 			c.violation("dryrun", sc, msg)
 			t.Fatalf("%s", msg)
+		}
+		if sc.Cfg.Overwrite && !sc.Cfg.Upload {
+			// a long compressed stream whose save stage stalls (a slow disk) and then fails: the stages in front of it - the
+			// decoder with the streams it opened - have run as far ahead as their buffers allow when the failure comes
+			saveSites := vfSitesInFunc("pipeline.go", "func (t *trzszTransfer) pipelineSaveData(")
+			big := sc
+			big.Name += "+big-compressible"
+			big.Files, big.Size, big.Kind = 2, 12<<20, vfKindText
+			for i, site := range saveSites {
+				if i > 5 {
+					break
+				}
+				h := vfPointHash("perturbed", big.Name, "dest_full", site)
+				if int(h%uint64(shards)) != shard {
+					continue
+				}
+				cs := vfC11Case{Scen: big, Ev: vfEvent{Dir: "c2s", K: -1}, Fault: "dest_full", Plan: []vfYieldStep{{Site: site, Hit: 0, Delay: 1200000}}}
+				c.label("perturbed_stalled_save")
+				if !vfC11One(t, c, cs) {
+					return
+				}
+			}
 		}
 		for _, fault := range []string{"silence_c2s", "silence_s2c", "client_write_error"} {
 			for _, dir := range []string{"c2s", "s2c"} {
